@@ -69,6 +69,21 @@ func c06New(cfg, t int) c06Stack {
 			return c06G[instKS]{stack.New[instKS](), instEncKS, instDecKS}
 		}
 		return c06G[instKS]{stack.NewLinked[instKS](instEncKS(t)), instEncKS, instDecKS}
+	case 3:
+		if impl == 0 {
+			return c06G[float64]{stack.New[float64](), nanEncF, nanDecF}
+		}
+		return c06G[float64]{stack.NewLinked[float64](nanEncF(t)), nanEncF, nanDecF}
+	case 4:
+		if impl == 0 {
+			return c06G[instXY]{stack.New[instXY](), nanEncXY, nanDecXY}
+		}
+		return c06G[instXY]{stack.NewLinked[instXY](nanEncXY(t)), nanEncXY, nanDecXY}
+	case 5:
+		if impl == 0 {
+			return c06G[any]{stack.New[any](), nanEncAny, nanDecAny}
+		}
+		return c06G[any]{stack.NewLinked[any](nanEncAny(t)), nanEncAny, nanDecAny}
 	}
 	if impl == 0 {
 		return stack.New[int]()
@@ -96,7 +111,7 @@ func execC06(in []int64) []int64 {
 	body := func() {
 		r := &R{w: in}
 		cfg, t := r.Int(), r.Int()
-		if cfg < 0 || cfg > 5 {
+		if cfg < 0 || cfg > 11 {
 			cfg = ((cfg % 2) + 2) % 2 // the model answers wire_error; run something deterministic
 		}
 		s := c06New(cfg, t)
@@ -350,6 +365,9 @@ func genC06(g *Gen) {
 		}
 	}
 
+	// 2d. nan: element types whose == is not the identity of values (c05_nan.go)
+	genC06NaN(g)
+
 	// 3. "malformed" use: reads and pops on an empty / emptied stack, extreme
 	// values, searching for the zero value
 	extremes := []int{0, -1, 1 << 40, -(1 << 40)}
@@ -375,16 +393,18 @@ func genC06(g *Gen) {
 	}
 }
 
-func c06OpName(op, arg int) string {
+func c06OpName(op, arg int) string { return c06OpNameI(0, op, arg) }
+
+func c06OpNameI(inst, op, arg int) string {
 	switch op {
 	case c06Push:
-		return fmt.Sprintf("Push(%d)", arg)
+		return fmt.Sprintf("Push(%s)", nanCodeName(inst, arg))
 	case c06Pop:
 		return "Pop()"
 	case c06Peek:
 		return "Peek()"
 	case c06Search:
-		return fmt.Sprintf("Search(%d)", arg)
+		return fmt.Sprintf("Search(%s)", nanCodeName(inst, arg))
 	case c06Size:
 		return "Size()"
 	}
@@ -400,15 +420,17 @@ func describeC06(in []int64) string {
 	if impl == 0 {
 		fmt.Fprintf(&sb, "stack.New[%s]()", instName(inst))
 	} else {
-		fmt.Fprintf(&sb, "stack.NewLinked[%s](%d)", instName(inst), in[1])
+		fmt.Fprintf(&sb, "stack.NewLinked[%s](%s)", instName(inst), nanCodeName(inst, int(in[1])))
 	}
-	if inst != 0 {
+	if inst >= 3 {
+		sb.WriteString(" [integers are codes of values, c05_nan.go]")
+	} else if inst != 0 {
 		sb.WriteString(" [elements through the int codec of c05_instances.go]")
 	}
 	rest := in[2:]
 	for i := 0; i+1 < len(rest) && i < 80; i += 2 {
 		sb.WriteString("; ")
-		sb.WriteString(c06OpName(int(rest[i]), int(rest[i+1])))
+		sb.WriteString(c06OpNameI(inst, int(rest[i]), int(rest[i+1])))
 	}
 	if len(rest) > 80 {
 		fmt.Fprintf(&sb, "; ... (%d ops)", len(rest)/2)
@@ -425,6 +447,7 @@ func init() {
 			"exhaustive-deep: every sequence of length 6 to 8 (thorough: 7 to 9) over {Push 1|2, Pop, Peek}; " +
 			"random: length-400 histories in fill / over-pop / churn phases over values 0..5; " +
 			"instances: for T = string and T = struct{K int; S string} (elements through an injective int codec whose strings are built afresh at run time for every use, zero value = 0) and both implementations: every sequence up to length 4 (thorough 5) over the same alphabet, 150 (1500) random length-400 histories each, long structured histories up to 130 elements, and the malformed stream; " +
+			"nan: element types whose == is not the identity of values, T = float64, struct{X, Y float64} and any (integers are codes: NaN and a second NaN-like value are not equal to themselves, -0 is a second value equal to the zero value, []int{1}, []int{2}, map are values of uncomparable dynamic types inside an any; observations canonicalised by NaN payload bits / sign bit / slice content), both implementations, the linked one from an ordinary first element and from a NaN: every sequence up to length 4 (thorough 5) over {Push 1|NaN|-0 (any: []int{1}), Pop, Peek, Search 1|NaN|0 (any: map), Size} and up to length 3 (4) over a second alphabet with the other NaN and the other uncomparable type; nan-random: 120 (1500) length-400 histories per element type over {0,1,2,3,NaN,NaN',-0 or the three uncomparable values}; a case never both stores and searches for values of one uncomparable dynamic type (Go's == itself panics there); " +
 			"large: structured long histories over distinct increasing values for both implementations, Peek/Size/Search observed at several points and a pop-all at the end: " +
 			"bulk grow to N in {40,130,300,1030} (thorough also 2050, 4000; linked stack: N <= 300 and saw-tooth up to 256 in the quick tier, its node-heap model being cubic in N) then pop 3N/4+2, N or N+3; saw-tooth p+1 -> p/4-1 over the powers of two p up to 1024 (4096) with thrashing across each capacity boundary; " +
 			"push/pop windows at depth 1..4 repeated 130, 300, 1100 (5000) times; malformed: reads and pops on empty and emptied stacks with extreme values. " +
